@@ -21,7 +21,7 @@ ASSUMPTIONS = ["pomerol's own debug assertions (TermList::check_terms, Hermitici
                "leaks are outside the statement (detect_leaks=0)", "uninitialised reads are visible only if they change an answer under the two fill patterns (no MSan-instrumented libstdc++/Boost/MPI in this image)",
                "OMP_NUM_THREADS=1"]
 CONFIG = {
-    "quick": {"flavours": ["real-san", "complex-san"], "shards": 8, "examples": 60, "min_nontrivial": 60, "budget_s": 75},
+    "quick": {"flavours": ["real-san", "complex-san"], "shards": 8, "examples": 220, "min_nontrivial": 100, "budget_s": 100},
     "thorough": {"flavours": ["real-san", "complex-san"], "shards": 16, "examples": 1500, "min_nontrivial": 3000, "budget_s": 3400},
 }
 REQUIRED_CLASSES = {"quick": ["offdiag-gf", "offdiag-susc", "chi-default", "chi-empty-table", "1x1-block", "sparse-family", "c4-container", "vertex"],
